@@ -814,6 +814,193 @@ func runC18(e *hk.Env) (retErr error) {
 			}
 		}
 	}
+	// ---- sources whose Stat().Size() is not what reading yields: a stable /proc file (read only; CopyFile only; never a
+	// destination, never MoveFile) and a FIFO in the sandbox fed by a writer goroutine. Outside the file-system model:
+	// "S" lines, judged by the specification on the observed outcome (and by the Go-side oracle) only.
+	bySpecial := map[string]int{}
+	special := func(srcKind, op, kind int, other bool, size int) {
+		caseNo++
+		base := filepath.Join(rootA, fmt.Sprintf("c%d", caseNo))
+		dstBase := base
+		if other {
+			dstBase = filepath.Join(rootB, fmt.Sprintf("c%d", caseNo))
+		}
+		defer os.RemoveAll(base)
+		defer os.RemoveAll(dstBase)
+		srcDir, dstDir := filepath.Join(base, "s"), filepath.Join(dstBase, "d")
+		if os.MkdirAll(srcDir, 0o755) != nil || os.MkdirAll(dstDir, 0o755) != nil {
+			e.Count("setup_failed", 1)
+			return
+		}
+		third := filepath.Join(dstDir, "third.dat")
+		thirdContent := []byte("third party " + strconv.Itoa(caseNo))
+		os.WriteFile(third, thirdContent, 0o644)
+		dst := filepath.Join(dstDir, "dst.dat")
+		if kind == kOther && os.WriteFile(dst, append([]byte("OTHER-FILE-"), content(size/2+3)...), 0o644) != nil {
+			e.Count("setup_failed", 1)
+			return
+		}
+		var src string
+		var orig []byte
+		done := make(chan struct{})
+		writerDone := make(chan struct{})
+		switch srcKind {
+		case 1: // /proc file: the bytes it holds are what reading it yields (its stat size is 0)
+			if op != 0 {
+				retErr = fmt.Errorf("a /proc source is only used with CopyFile")
+				return
+			}
+			for _, cand := range []string{"/proc/version", "/proc/sys/kernel/ostype"} {
+				a, err1 := os.ReadFile(cand)
+				b, err2 := os.ReadFile(cand)
+				if err1 == nil && err2 == nil && len(a) > 0 && bytes.Equal(a, b) {
+					if size%2 == 0 || src == "" {
+						src, orig = cand, a
+					}
+				}
+			}
+			if src == "" {
+				e.Count("proc_source_unavailable", 1)
+				return
+			}
+			close(writerDone)
+		case 2: // FIFO: the bytes the source holds are the bytes the writer feeds before closing
+			src = filepath.Join(srcDir, "pipe")
+			if syscall.Mkfifo(src, 0o644) != nil {
+				e.Count("setup_failed", 1)
+				return
+			}
+			orig = content(size)
+			go func() {
+				defer close(writerDone)
+				deadline := time.Now().Add(5 * time.Second)
+				fd := -1
+				for fd < 0 {
+					var err error
+					fd, err = syscall.Open(src, syscall.O_WRONLY|syscall.O_NONBLOCK|syscall.O_CLOEXEC, 0)
+					if err != nil {
+						fd = -1
+						select {
+						case <-done:
+							return
+						default:
+						}
+						if time.Now().After(deadline) {
+							return
+						}
+						time.Sleep(200 * time.Microsecond)
+					}
+				}
+				syscall.SetNonblock(fd, false)
+				f := os.NewFile(uintptr(fd), src)
+				f.Write(orig) // EPIPE when the reader went away early
+				f.Close()
+			}()
+		}
+		// guard: the destination inside the scratch roots; the source inside them or one of the two /proc files (CopyFile)
+		inRoots := func(p string) bool {
+			p = filepath.Clean(p)
+			return strings.HasPrefix(p, rootA+"/") || (rootB != "" && strings.HasPrefix(p, rootB+"/"))
+		}
+		if !inRoots(dst) || !(inRoots(src) || (srcKind == 1 && op == 0 && (src == "/proc/version" || src == "/proc/sys/kernel/ostype"))) {
+			retErr = fmt.Errorf("refusing paths %q -> %q", src, dst)
+			close(done)
+			return
+		}
+		type result struct {
+			err      error
+			panicked string
+		}
+		resCh := make(chan result, 1)
+		go func() {
+			var r result
+			defer func() {
+				if p := recover(); p != nil {
+					r.panicked = fmt.Sprint(p)
+				}
+				resCh <- r
+			}()
+			if op == 0 {
+				_, r.err = osutil.CopyFile(src, dst)
+			} else {
+				r.err = osutil.MoveFile(src, dst)
+			}
+		}()
+		var res result
+		hung := false
+		select {
+		case res = <-resCh:
+		case <-time.After(20 * time.Second):
+			hung = true
+		}
+		close(done)
+		if hung && srcKind == 2 {
+			// release a call blocked on the FIFO: take the other end(s) ourselves
+			if fd, err := syscall.Open(src, syscall.O_RDWR|syscall.O_NONBLOCK, 0); err == nil {
+				time.Sleep(50 * time.Millisecond)
+				syscall.Close(fd)
+			}
+			select {
+			case res = <-resCh:
+			case <-time.After(5 * time.Second):
+			}
+		}
+		select {
+		case <-writerDone:
+		case <-time.After(6 * time.Second):
+		}
+		ok := !hung && res.err == nil && res.panicked == ""
+		_, lerr := os.Lstat(src)
+		srcPresent := lerr == nil
+		srcOrig := false
+		if srcKind == 1 {
+			b, err := os.ReadFile(src)
+			srcOrig = err == nil && bytes.Equal(b, orig)
+		}
+		dstOrig := false
+		if st, err := os.Stat(dst); err == nil && st.Mode().IsRegular() {
+			b, err := os.ReadFile(dst)
+			dstOrig = err == nil && bytes.Equal(b, orig)
+		}
+		t, terr := os.ReadFile(third)
+		thirdOK := terr == nil && bytes.Equal(t, thirdContent)
+		fields := []string{strconv.Itoa(srcKind), strconv.Itoa(op), strconv.Itoa(kind), b2s(other), b2s(len(orig) > 0), b2s(ok), b2s(srcPresent),
+			b2s(srcOrig), b2s(dstOrig), b2s(thirdOK), strconv.Itoa(len(orig))}
+		e.Case(append([]string{"S"}, fields...)...)
+		bySpecial[[]string{"", "proc-file", "fifo"}[srcKind]+"/"+[]string{"CopyFile", "MoveFile"}[op]+"/"+kindNames[kind]+map[bool]string{false: "", true: "/other-device"}[other]]++
+		reason := ""
+		switch {
+		case hung:
+			reason = "call-does-not-return"
+		case res.panicked != "":
+			reason = "panic"
+		case !thirdOK:
+			reason = "third-party-file-changed"
+		case ok && !dstOrig:
+			reason = "nil-but-destination-differs-from-what-the-source-held"
+		case srcKind == 1 && !(srcPresent && srcOrig):
+			reason = "source-changed"
+		}
+		if reason != "" {
+			viol++
+			e.Case(append([]string{"VIOL", reason, "special-source"}, fields...)...)
+		}
+	}
+	for _, size := range []int{1, 10, 4096, 70000, 300000} {
+		for _, kind := range []int{kMissing, kOther} {
+			for _, other := range devs {
+				special(1, 0, kind, other, size)
+				special(2, 0, kind, other, size)
+				if other {
+					special(2, 1, kind, true, size) // MoveFile of a FIFO only across devices (on one device the node itself is renamed)
+				}
+				if retErr != nil {
+					return retErr
+				}
+			}
+		}
+	}
+	e.Stats["by_special_source"] = bySpecial
 	e.Stats["by_spelling"] = bySpelling
 	e.Stats["by_destination_state"] = byPrep
 	if devFullOK && !devFullIntact() {
